@@ -1,6 +1,6 @@
 (* C13 - Counts stay exact under concurrent threads and interleaved tasks.  Statements only. *)
 From Coq Require Import List ZArith Bool.
-From LP Require Import Trace.GenRun Trace.ZMap Trace.Concrete Trace.Abstract Trace.AbstractFacts Trace.Main Trace.Threads Trace.ThreadsMain.
+From LP Require Import Trace.GenRun Trace.ZMap Trace.Concrete Trace.Abstract Trace.AbstractFacts Trace.Main Trace.Threads Trace.ThreadsMain Trace.ThreadLocal.
 Import ListNotations.
 Open Scope Z_scope.
 
@@ -64,3 +64,26 @@ Proof. exact threads_example_short. Qed.
 Theorem C13_model_is_generated_core :
   forall codes tick start ops, gen_run codes tick start ops = run codes tick start ops.
 Proof. exact gen_run_eq. Qed.
+
+(* THREAD LOCALITY of the tracer's pending-line tables (hash-bucket machine = the core regenerated from the source):
+   whatever thread t does - a line or return event, enable(), disable() - leaves every other thread's table of
+   pending line starts exactly as it was *)
+Theorem C13_operations_are_thread_local :
+  forall codes tick st o t u,
+    op_thread o = Some t -> u <> t -> get (last (step codes tick st o)) u = get (last st) u.
+Proof. exact step_last_other. Qed.
+
+(* ... so a thread that performs nothing during a history finds its pending lines as it left them *)
+Theorem C13_idle_thread_untouched :
+  forall codes tick u ops st,
+    (forall o, In o ops -> op_thread o <> Some u) -> (forall o cb ca, In o ops -> o <> G cb ca) ->
+    get (last (fold_left (step codes tick) ops st)) u = get (last st) u.
+Proof. exact run_last_untouched. Qed.
+
+(* disable() in thread t records nothing, costs no clock read and forgets exactly the caller's pending lines *)
+Theorem C13_disable_effect :
+  forall codes tick st t,
+    cmap (step codes tick st (D t)) = cmap st
+    /\ getd [] (last (step codes tick st (D t))) t = []
+    /\ now (step codes tick st (D t)) = now st.
+Proof. exact disable_effect. Qed.
